@@ -195,12 +195,14 @@ fn install_sampler_handler() {
                 s.shot += 1;
             }
             // parity with random_bool: 0 and 1 are forced, anything outside [0,1] (or NaN) would panic there
-            let free = p > 0.0 && p < 1.0;
+            // a probability within float noise of 0 or 1 (the conditional is a quotient of two float marginals, e.g.
+            // 0.9999999999999998) is forced as well: random_bool would take the other branch once in 1e16 draws
+            let free = p > 1e-9 && p < 1.0 - 1e-9;
             let b = if !(0.0..=1.0).contains(&p) {
                 false
-            } else if p == 0.0 {
+            } else if p <= 1e-9 {
                 false
-            } else if p == 1.0 {
+            } else if p >= 1.0 - 1e-9 {
                 true
             } else {
                 let b = s.script.get(s.pos).copied().unwrap_or(false);
@@ -378,9 +380,9 @@ fn families(quick: bool) -> Vec<(&'static str, usize, Vec<Gate>, usize)> {
     }
     a3.extend([Gate::new(CNOT, vec![0, 1]), Gate::new(CNOT, vec![2, 0]), Gate::new(CZ, vec![1, 2]), Gate::new(SWAP, vec![0, 2]), Gate::new(SWAP, vec![0, 1]), Gate::new(CCZ, vec![0, 1, 2]), Gate::new(TOFF, vec![2, 1, 0])]);
     if quick {
-        vec![("K(2,2,A_ct+swap)", 2, a2, 2), ("K(3,2,A3)", 3, a3, 2), ("K(2,1,A_tol)", 2, alpha_tol(2), 1)]
+        vec![("K(2,2,A_ct+swap)", 2, a2, 2), ("K(3,2,A3)", 3, a3, 2), ("K(2,2,A_tol)", 2, alpha_tol(2), 2)]
     } else {
-        vec![("K(2,3,A_ct+swap)", 2, a2, 3), ("K(3,3,A3)", 3, a3, 3), ("K(2,2,A_tol)", 2, alpha_tol(2), 2)]
+        vec![("K(2,3,A_ct+swap)", 2, a2, 3), ("K(3,3,A3)", 3, a3, 3), ("K(2,3,A_tol)", 2, alpha_tol(2), 3)]
     }
 }
 
